@@ -42,6 +42,14 @@ def run(case: dict, lean: Lean) -> Outcome:
     failed = []; corr = True
     # (1) learned offsets vs the model (accumulate-then-divide) and the documented definition
     bm = BiasModel.learn(ds, {"user": du, "item": di})
+    # the documented ways of giving the damping say the same thing: a pair (user, item); one number for both; a dictionary that leaves
+    # an entity out (no damping for it)
+    forms = [("pair", (du, di))] + ([("one number", du)] if du == di else []) + ([("item left out", {"user": du})] if di == 0 else []) + ([("user left out", {"item": di})] if du == 0 else [])
+    for label, form in forms:
+        alt = BiasModel.learn(ds, form)
+        if not (np.allclose(np.asarray(alt.item_biases, dtype=float), np.asarray(bm.item_biases, dtype=float), equal_nan=True) and np.allclose(np.asarray(alt.user_biases, dtype=float), np.asarray(bm.user_biases, dtype=float), equal_nan=True)
+                and _close(float(alt.global_bias), float(bm.global_bias), 1e-9)):
+            failed.append(f"damping given as {label} ({form!r}) learns other offsets than the dictionary with both entries")
     res = lean.call("c08.bias", dict(ratings=[[uid[u], iid[i], rat(r)] for u, i, r, _ in rows], nUsers=len(uid), nItems=len(iid),
                                      dampUser=rat(du), dampItem=rat(di)))
     g = float(Fraction(res["global"]))
@@ -53,7 +61,7 @@ def run(case: dict, lean: Lean) -> Outcome:
         if not _close(float(v), ub[k], 1e-4): corr = False; failed.append(f"user offset {k}")
     if res["items"] != res["itemsDef"] or res["users"] != res["usersDef"]: corr = False; failed.append("model ≠ definition")
     # (2) score assembly on the implementation: sum of the applicable offsets
-    sc = BiasScorer(damping={"user": du, "item": di}); sc.train(ds)
+    sc = BiasScorer(damping=(du if (du == di and case.get("seed", 0) % 2) else {"user": du, "item": di})); sc.train(ds)
     cand = [int(i) for i in ds.items.ids()] + [8888]
     for u in list(uid)[:3] + [4242]:
         out = sc(RecQuery(user_id=u), ItemList(item_ids=cand)).scores()
